@@ -40,12 +40,6 @@ def knownShared : List String :=
    "response.responses", "results.HTML_ESCAPE_TABLE", "results.default_states", "wsgi.AUTH_DIGEST_ALGORITHMS",
    "wsgi.Application.__instances"]
 
-/-- the functions that may write shared objects: they run at import or configuration time, never
-    while a request is served -/
-def configTime (fn : String) : Bool :=
-  fn = "<module>" || fn = "results.__fill_default_shandlers" || fn = "wsgi.Application.__init__"
-    || fn = "wsgi.Application.__del__"
-
 /-! ### the request model of C01/C03/C04 as an instance -/
 
 open Poor.Wsgi Poor.Response in
